@@ -415,7 +415,34 @@ pub fn run(ctx: &'static Ctx) -> (&'static str, Value, Vec<&'static str>) {
         s3.eval();
         s3.outcome(o);
     }
-    let stats = s1.merge(s2).merge(s3);
+    // history: mapping / estimate calls with different cut lists back to back on one thread
+    let lists: Vec<Vec<(bool, u8, u8)>> = vec![
+        vec![(true, 1, 0), (false, 4, 2), (true, 2, 1)],
+        vec![(false, 1, 0); 4],
+        vec![],
+        vec![(true, 5, 2); 9],
+        vec![(false, 4, 0), (true, 1, 0), (false, 4, 0), (true, 1, 0), (true, 3, 1)],
+    ];
+    let hmsgs: Vec<vcp::Message> = lists.iter().map(|l| vcp_message(l)).collect();
+    let sh = history_check(
+        ctx,
+        "mapping_and_estimate",
+        lists.len() * 3,
+        3,
+        |k| {
+            let (li, seq) = (k / 3, [2usize, 9, 20][k % 3]);
+            let id = chunk(&format!("{:03}", seq), true);
+            let r = guarded(|| {
+                (
+                    (1..=60usize).map(|s| get_elevation_from_chunk(s, &hmsgs[li].elevations).map(|e| e.elevation_angle)).collect::<Vec<_>>(),
+                    estimate_next_chunk_time(&id, &hmsgs[li], None).map(|t| (t - t0()).num_milliseconds()),
+                )
+            });
+            format!("{:?}", r)
+        },
+        |k| format!("cuts#{} prev={}", k / 3, [2, 9, 20][k % 3]),
+    );
+    let stats = s1.merge(s2).merge(s3).merge(sh);
     let mut cov = stats.coverage(
         "mapping: every cut list over {half-degree, other} of length 0..=10 (thorough 12) plus four 32-cut lists x sequences 0..=100 (200), each cut identified by a unique elevation angle; estimate without history: waveform 0..=6 x channel 0..=3 x resolution x previous sequence 0..=60 x {no stats, empty stats} x {with, without upload time}, unparsable sequences; rolling window: stateright BFS over histories of add_timing over {(0 s,1),(7 s,2),(60 s,5)} x 1 key to depth 11 (12), 2 keys to depth 5 (6), 3 keys (incl. the End-chunk key) to depth 4 (5): in every state the real estimate for every key must equal previous + mean(last <= 10 durations) + (mean attempts - 1) s within 1 s, get_statistics must agree. non-trivial = history of >= 2 samples / distinct cut list",
         true,
@@ -434,6 +461,9 @@ pub fn run(ctx: &'static Ctx) -> (&'static str, Value, Vec<&'static str>) {
 pub fn replay(ctx: &'static Ctx, case: &Value) {
     let mut st = Stats::new();
     match case["op"].as_str() {
+        Some("history") if case["what"].is_string() => {
+            let _ = run(ctx);
+        }
         Some("history") => {
             let h: Vec<(u8, u8)> = case["history"].as_array().map(|a| a.iter().map(|x| (x[0].as_u64().unwrap_or(0) as u8, x[1].as_u64().unwrap_or(0) as u8)).collect()).unwrap_or_default();
             println!("replay history -> {}", check_history(ctx, &h));
